@@ -206,4 +206,21 @@ TEXTS['C18'] = {
     'technique': "Lean 4 proof (stage with shutdown/join, permit conservation) + trace validation + explorer oracle",
 }
 
+TEXTS['C13'] = {
+    'text': "Partial proof. Lean theorems in exact rational arithmetic (alpha read from the source), for every positive limit and "
+            "every history of consume calls: an unscheduled grant happens only after a positive time and for at most "
+            "(1/alpha) x max x dt bytes (the 1.25 allowance); traffic whose every read asks for at most max x (time since the "
+            "previous grant) is never refused; the scheduler's total equals the sum of the waits of the tokens currently "
+            "scheduled and a refused read is told to wait exactly that sum including its own; a scheduled token is granted on "
+            "its next attempt; a stream whose transfer failed raises that error at the next loop test, does not sleep again and "
+            "leaves the queue. Not proved: the interval bound '1.25 x max x T + burst' for mixed traffic — the oracle measures "
+            "windowed byte counts, waits and starvation of the real classes for 1-8 streams in virtual time under the "
+            "deterministic scheduler (adversarial think times, late wake-ups, abandoned waiters). Defect D4 was found and "
+            "repaired; D5 (infinite rate after simultaneous scheduled releases) is a recorded finding.",
+    'note': COMMON_NOTE + "Axioms of the Mathlib tactics used (linarith, nlinarith, positivity, field lemmas) stay within propext / "
+            "Classical.choice / Quot.sound. The real classes compute in IEEE-754 floats: decisions are compared with the exact "
+            "model except within 1e-9 of the limit; real time and OS sleeping are replaced by a virtual clock.",
+    'technique': "Lean 4 proof over exact rationals (Mathlib tactics) + differential correspondence + virtual-time simulation oracle",
+}
+
 NOT_APPLICABLE = []
